@@ -42,13 +42,13 @@ def decode_at(data, creator="O"):
 
 
 CURSOR_CASES = ["EH", "LP", "UD", "ED", "XX", "MT", "PS0", "SS0"]
-LOOP_CASES = ["B", "A:1", "B:1", "C:1", "D:1"]
+LOOP_CASES = ["B", "A:1", "B:1", "C:1", "D:1", "S:1"]
 
 HARNESSES = [
     {"fn": "h_cursor", "cases": CURSOR_CASES, "timeout": {"quick": 90, "thorough": 300}},
     {"fn": "h_src_cursor", "cases": C03_src.LAYOUTS, "quick_cases": C03_src.QUICK_LAYOUTS,
      "timeout": {"quick": 60, "thorough": 300}},
-    {"fn": "h_loop", "cases": LOOP_CASES, "quick_cases": ["A:1", "C:1"], "timeout": {"quick": 120, "thorough": 900}},
+    {"fn": "h_loop", "cases": LOOP_CASES, "quick_cases": ["A:1", "C:1", "S:1"], "timeout": {"quick": 120, "thorough": 900}},
     {"fn": "h_numbering", "cases": ["m4"], "timeout": {"quick": 60, "thorough": 300}},
 ]
 BOUNDS = {"cursor": "EH symptom length 0..12; LP name length 0..8 x target count 0..5; UD/ED/other payload 1..16 bytes "
@@ -147,8 +147,10 @@ def catalogue(case, x1, x2):
     X1 = ("X", x1, pb.OTHER(x1, b"\x11\x22\x33\x44\x55"))
     X2 = ("X", x2, pb.OTHER(x2, b"\xAA\xBB\xCC\xDD\xEE\xFF\x01"))
     PS = ("PS", None, pb.SRC(flags=1, callouts=co))
-    SS1 = ("SS", None, pb.SRC(sid="SS", ascii=b"BD8D0001"))
-    SS2 = ("SS", None, pb.SRC(sid="SS", ascii=b"BD8D0002", flags=1, callouts=co))
+    SS1 = ("SS", None, pb.SRC(sid="SS", ascii=b"BD8D0001", words=(0x020000E0, 0x11110000, 0x22220000, 3, 4, 5, 6, 7)))
+    SS2 = ("SS", None, pb.SRC(sid="SS", ascii=b"BD8D0002", flags=1, callouts=co, wc=5,
+                              words=(0x020000D0, 0x33330000, 0x44440000, 0x01000000, 9, 9, 9, 9)))
+    T1, T2, T3 = ("UD", None, pb.UD(b"\x01", comp=0x4321)), ("DH", None, pb.OTHER("DH", b"\x02")), ("UD", None, pb.UD(b"\x03\x04", comp=0x4321))
     EH, MT, LP = ("EH", None, pb.EH()), ("MT", None, pb.MT()), ("LP", None, pb.LP())
     UD1 = ("UD", None, pb.UD(b"\x01\x02\x03\x04", comp=0x4321))
     UD2 = ("UD", None, pb.UD(b"\x05\x06\x07\x08\x09", comp=0x4321))
@@ -159,6 +161,7 @@ def catalogue(case, x1, x2):
         "B": [X1, X2, UD1, UD2, ED1],
         "C": [PS, SS1, SS2, LP, X1, UD1, X2, ED1, DH, UD2],
         "D": [UD1, X1, DH, ED1, ED1, X2, MT],
+        "S": [T1, T2, ("X", x1, pb.OTHER(x1, b"\x05")), T3, T1, T2, T3, T1],      # the smallest legal sections (9..10 bytes)
     }[case]
 
 
@@ -184,15 +187,17 @@ def h_loop() -> bool:
     cfg = Config()
     cfg.every_pel = True
     try:
+        # reference: every optional section decoded alone, from its own bytes, each in a fresh process state
+        alone = []
+        for _, _, s in secs:
+            fresh_state()
+            with patched(peltool, json=fj):
+                alone.append(decode_at(pb.flat(s)))
+        fresh_state()
         with patched(peltool, json=fj, prettyPrint=lambda t, *a, **k: t):
             eid, tok = peltool.parsePEL(DataStream(data, byte_order="big", is_signed=False), cfg, False)
         doc = tok.obj
         keys = list(doc.keys())
-        # standalone decode of every optional section from its own bytes only
-        alone = []
-        for _, _, s in secs:
-            with patched(peltool, json=fj):
-                alone.append(decode_at(pb.flat(s)))
     except Exception as e:
         return verdict(False, obs={"exception": repr(e)})
     # independent oracle for names / numbering
